@@ -111,7 +111,9 @@ func (n *memoryStoreNode) findNewest() *memoryStoreNode {
 	known := n
 	for _, child := range n.children {
 		cl := child.findNewest()
-		if cl.version > known.version {
+		// a node that holds a packet wins over one that holds none, whatever
+		// their version fields say (version 0 is a version)
+		if cl.wire != nil && (known.wire == nil || cl.version > known.version) {
 			known = cl
 		}
 	}
